@@ -3,6 +3,7 @@ CONSTANTS
   Clients <- MC2Clients
   Reqs <- MC2ReqsB
   Bg = "none"
+  Pool <- NoPool
   Handoff = FALSE
 INVARIANT RecvMutex
 INVARIANT CondMutex
